@@ -1246,9 +1246,13 @@ impl PathSeg {
             }
             PathSeg::Quad(q) => {
                 let d01 = q.p1 - q.p0;
-                let d0 = if d01.hypot2() > EPS { d01 } else { q.p2 - q.p0 };
                 let d12 = q.p2 - q.p1;
-                let d1 = if d12.hypot2() > EPS { d12 } else { q.p2 - q.p0 };
+                let d02 = q.p2 - q.p0;
+                // When the end points coincide the chord has no direction; the control
+                // arm, however short, is the only one there is.
+                let closed = d02 == Vec2::ZERO;
+                let d0 = if d01.hypot2() > EPS || closed { d01 } else { d02 };
+                let d1 = if d12.hypot2() > EPS || closed { d12 } else { d02 };
                 (d0, d1)
             }
             PathSeg::Cubic(c) => {
@@ -1257,10 +1261,17 @@ impl PathSeg {
                     d01
                 } else {
                     let d02 = c.p2 - c.p0;
+                    let d03 = c.p3 - c.p0;
                     if d02.hypot2() > EPS {
                         d02
+                    } else if d03 != Vec2::ZERO {
+                        d03
+                    } else if d01 != Vec2::ZERO {
+                        // The end points coincide, so the chord has no direction; a
+                        // control arm, however short, is the only one there is.
+                        d01
                     } else {
-                        c.p3 - c.p0
+                        d02
                     }
                 };
                 let d23 = c.p3 - c.p2;
@@ -1268,10 +1279,15 @@ impl PathSeg {
                     d23
                 } else {
                     let d13 = c.p3 - c.p1;
+                    let d03 = c.p3 - c.p0;
                     if d13.hypot2() > EPS {
                         d13
+                    } else if d03 != Vec2::ZERO {
+                        d03
+                    } else if d23 != Vec2::ZERO {
+                        d23
                     } else {
-                        c.p3 - c.p0
+                        d13
                     }
                 };
                 (d0, d1)
